@@ -38,8 +38,11 @@ def main():
             for f in meta.get("files", []) + meta.get("test_files", []):
                 if isinstance(f, str):
                     cands.append(os.path.dirname(f) if f.endswith(".go") else f)
-            if isinstance(meta.get("test_dir"), str):
-                cands.insert(0, meta["test_dir"])
+            for k in ("test_dir", "test_package"):
+                if isinstance(meta.get(k), str):
+                    cands.insert(0, meta[k].lstrip("./"))
+            if isinstance(meta.get("test_file"), str):
+                cands.insert(0, os.path.dirname(meta["test_file"]).lstrip("./"))
         except Exception:
             pass
         rc, o = sh(f"grep -rl --include=*.go '^package {pkgname}$' pkg apis cmd 2>/dev/null | xargs -n1 dirname | sort -u", cwd="/repo")
@@ -51,7 +54,9 @@ def main():
             pkgdir = chosen[0]
         else:
             near = [d for d in alldirs if os.path.basename(d) == pkgname]
-            if len(near) == 1:
+            if near:
+                # the package of that name closest to the patched file
+                near.sort(key=lambda d: -len(os.path.commonprefix([d + "/", os.path.dirname(files[0]) + "/"])))
                 pkgdir = near[0]
     wt = tempfile.mkdtemp(prefix="verif-seedrun.", dir="/var/tmp")
     os.rmdir(wt)
